@@ -196,8 +196,11 @@ class Real(object):
                 raise ValueError(k)
         except Exception as e:     # noqa
             r = ['exc', type(e).__name__]
-        state = {'texts': [to_atoms(str(x)) for x in list.__iter__(a)], 'ids': [self.idof(x) for x in list.__iter__(a)],
-                 'str': to_atoms(str(a)), 'owner': to_atoms(str(self.owner)), 'len': len(a)}
+        try:
+            state = {'texts': [to_atoms(str(x)) for x in list.__iter__(a)], 'ids': [self.idof(x) for x in list.__iter__(a)],
+                     'str': to_atoms(str(a)), 'owner': to_atoms(str(self.owner)), 'len': len(a)}
+        except BaseException as e:      # noqa   looking at the list must not fail (RecursionError: a list that contains itself)
+            state = {'texts': [], 'ids': [], 'str': to_atoms('<%s>' % type(e).__name__), 'owner': [], 'len': -1}
         return r, state
 
 
@@ -215,7 +218,11 @@ def _replay(rec):
 
 
 def _replay_on(rec, owner):
-    R = Real(owner)
+    try:
+        R = Real(owner)
+    except BaseException as e:      # noqa   a fresh document cannot even be built any more after the earlier list operations
+        return {'step': 0, 'why': 'result', 'op': norm_op(rec['h'][0]['op']), 'got': ['exc', 'fresh-document:' + type(e).__name__], 'want': rec['h'][0]['r'],
+                'got_list': [], 'want_list': [], 'got_str': '', 'got_owner': ''}
     for n, ev in enumerate(rec['h']):
         o = norm_op(ev['op'])
         r, st = R.do(o)
@@ -241,7 +248,11 @@ def record_walks(rng, count, length, maxlen=6):
     ops = all_ops()
     traces = []
     for _ in range(count):
-        R = Real('cmd')
+        try:
+            R = Real('cmd')
+        except BaseException as e:      # noqa   earlier list operations left the library unable to build a fresh document
+            traces.append({'h': [], 'setup_error': type(e).__name__})
+            break
         h = []
         for _ in range(length):
             o = rng.choice(ops)
@@ -317,6 +328,10 @@ def run(chk):
         for r in recs[:2] + recs[-3:]:
             chk.sample({'path': [[e['op']['k'], e['op']['i'], from_atoms(e['op']['v']['t']), e['r'][:2], [from_atoms(t) for t in e['texts']]] for e in r['h']]})
     traces = record_walks(rng, 400 if quick else 6000, 30)
+    for t in [t for t in traces if t.get('setup_error')]:
+        chk.violation('C18-result', {'kind': 'walk', 'history': [], 'mismatch': 'after the earlier walks a fresh document with an empty argument list '
+                                     'cannot be built any more: ' + t['setup_error']})
+    traces = [t for t in traces if not t.get('setup_error')]
     for t in traces:
         chk.case(json.dumps([e['op'] for e in t['h']]))
     validate(chk, traces)
